@@ -56,6 +56,9 @@ impl NumSem {
 
     fn un1(&self, op: &str, a: NV) -> R<NAlt> {
         let w = self.w;
+        match op { "floor" | "ceil" | "trunc" => super::f64sem::at_discontinuity(&self.flags, a.as_f64(), "int")?,
+                   "round" => super::f64sem::at_discontinuity(&self.flags, a.as_f64(), "half")?,
+                   "sgn" => super::f64sem::at_discontinuity(&self.flags, a.as_f64(), "zero")?, _ => {} }
         let one = |v: NV| Ok(NAlt(vec![v]));
         match (op, a) {
             ("neg", NV::I(x)) => one(if fits(w, -x) { NV::I(-x) } else { NV::F(-(x as f64)) }),
